@@ -88,6 +88,7 @@ type Proc struct {
 	Env    []string
 	Dir    string
 	stdin  []byte
+	stdinP *hostStdin
 	pipes  [3]*pipe // index 1, 2
 	files  [3]*simos.File
 	rec    *Exec
@@ -100,7 +101,13 @@ type Proc struct {
 }
 
 // Stdin returns everything the host supplied on standard input.
-func (p *Proc) Stdin() []byte { return p.stdin }
+func (p *Proc) Stdin() []byte {
+	if p.stdinP != nil {
+		rt.WaitUntil("stdin", func() bool { return p.stdinP.closed }, time.Time{})
+		return p.stdinP.buf
+	}
+	return p.stdin
+}
 
 // ChunkSize is the size of one pipe delivery.
 var ChunkSize = 32 * 1024
@@ -304,6 +311,8 @@ type Cmd struct {
 	real     *osexec.Cmd // outside a simulation
 	started  bool
 	finished bool
+
+	stdinPipe *hostStdin
 }
 
 func Command(name string, arg ...string) *Cmd {
@@ -424,7 +433,9 @@ func (c *Cmd) Start() error {
 	}
 	Log = append(Log, rec)
 	p := &Proc{Path: c.Path, Argv: rec.Argv, Env: c.Env, Dir: c.Dir, rec: rec}
-	if c.Stdin != nil {
+	if c.stdinPipe != nil {
+		p.stdinP = c.stdinPipe
+	} else if c.Stdin != nil {
 		p.stdin, _ = io.ReadAll(c.Stdin)
 		rec.Stdin = p.stdin
 	}
@@ -437,6 +448,9 @@ func (c *Cmd) Start() error {
 			return
 		}
 		p.pipes[fd] = &pipe{w: w, holders: 1, accepted: &rec.Accepted[fd]}
+		if h, ok := w.(*hostPipe); ok {
+			h.pp = p.pipes[fd]
+		}
 	}
 	mk(1, c.Stdout)
 	if c.Stderr != nil && interfaceEqual(c.Stderr, c.Stdout) {
@@ -490,6 +504,9 @@ func (c *Cmd) ctxDone() bool {
 func (c *Cmd) allReleased() bool {
 	for _, pp := range c.proc.pipes {
 		if pp != nil && pp.holders > 0 && !pp.broken {
+			if _, own := pp.w.(*hostPipe); own {
+				continue // no copier: the host reads this one itself
+			}
 			return false
 		}
 	}
@@ -602,6 +619,15 @@ func (c *Cmd) Wait() error {
 	if err == nil {
 		err = gerr
 	}
+	// pipes the host reads itself are closed by Wait
+	for _, pp := range p.pipes {
+		if pp != nil {
+			if h, own := pp.w.(*hostPipe); own {
+				h.rClosed = true
+				pp.broken = true
+			}
+		}
+	}
 	p.rec.Returned = true
 	p.rec.ReturnSim = rt.Cur.Now()
 	return err
@@ -645,11 +671,131 @@ func (c *Cmd) CombinedOutput() ([]byte, error) {
 	return b.Bytes(), err
 }
 
-var errNoPipes = errors.New("simexec: StdinPipe/StdoutPipe/StderrPipe are not modelled")
+var errNoPipes = errors.New("simexec: StdinPipe/StdoutPipe/StderrPipe are modelled inside a simulation only")
 
-func (c *Cmd) StdinPipe() (io.WriteCloser, error) { return nil, errNoPipes }
-func (c *Cmd) StdoutPipe() (io.ReadCloser, error) { return nil, errNoPipes }
-func (c *Cmd) StderrPipe() (io.ReadCloser, error) { return nil, errNoPipes }
+// hostPipe is the read end of a pipe the host reads itself (StdoutPipe / StderrPipe): a 64 KiB kernel buffer
+// between the process task, which blocks while it is full, and the host task, which blocks while it is empty and a
+// write end is still open. Wait closes it, as os/exec does.
+type hostPipe struct {
+	buf     []byte
+	rClosed bool
+	pp      *pipe
+}
+
+const hostPipeCap = 64 * 1024
+
+func (h *hostPipe) Write(b []byte) (int, error) { // on the process's task
+	written := 0
+	for len(b) > 0 {
+		if h.rClosed {
+			return written, syscall.EPIPE
+		}
+		room := hostPipeCap - len(h.buf)
+		if room <= 0 {
+			rt.WaitUntil("pipe.full", func() bool { return h.rClosed || len(h.buf) < hostPipeCap }, time.Time{})
+			if !rt.Active() {
+				return written, syscall.EPIPE
+			}
+			continue
+		}
+		n := len(b)
+		if n > room {
+			n = room
+		}
+		h.buf = append(h.buf, b[:n]...)
+		b = b[n:]
+		written += n
+	}
+	return written, nil
+}
+
+func (h *hostPipe) Read(b []byte) (int, error) { // on the host's task
+	if d := rt.Point(rt.Op{Kind: "piperead"}); d.Err != nil {
+		return 0, d.Err
+	}
+	if h.rClosed {
+		return 0, os.ErrClosed
+	}
+	rt.WaitUntil("pipe.empty", func() bool {
+		return len(h.buf) > 0 || h.rClosed || h.pp == nil || h.pp.holders <= 0 || h.pp.broken
+	}, time.Time{})
+	if len(h.buf) == 0 {
+		if h.rClosed {
+			return 0, os.ErrClosed
+		}
+		return 0, io.EOF
+	}
+	n := copy(b, h.buf)
+	h.buf = h.buf[n:]
+	return n, nil
+}
+
+func (h *hostPipe) Close() error { h.rClosed = true; return nil }
+
+// hostStdin is the write end of a pipe to the process's standard input (StdinPipe); the process sees the bytes
+// once the host has closed it.
+type hostStdin struct {
+	buf    []byte
+	closed bool
+}
+
+func (h *hostStdin) Write(b []byte) (int, error) {
+	if d := rt.Point(rt.Op{Kind: "pipewrite", N: len(b)}); d.Err != nil {
+		return 0, d.Err
+	}
+	if h.closed {
+		return 0, os.ErrClosed
+	}
+	h.buf = append(h.buf, b...)
+	return len(b), nil
+}
+func (h *hostStdin) Close() error { h.closed = true; return nil }
+
+func (c *Cmd) StdinPipe() (io.WriteCloser, error) {
+	if !rt.Active() {
+		return nil, errNoPipes
+	}
+	if c.Stdin != nil {
+		return nil, errors.New("exec: Stdin already set")
+	}
+	if c.Process != nil {
+		return nil, errors.New("exec: StdinPipe after process started")
+	}
+	h := &hostStdin{}
+	c.stdinPipe = h
+	c.Stdin = bytes.NewReader(nil)
+	return h, nil
+}
+
+func (c *Cmd) StdoutPipe() (io.ReadCloser, error) {
+	if !rt.Active() {
+		return nil, errNoPipes
+	}
+	if c.Stdout != nil {
+		return nil, errors.New("exec: Stdout already set")
+	}
+	if c.Process != nil {
+		return nil, errors.New("exec: StdoutPipe after process started")
+	}
+	h := &hostPipe{}
+	c.Stdout = h
+	return h, nil
+}
+
+func (c *Cmd) StderrPipe() (io.ReadCloser, error) {
+	if !rt.Active() {
+		return nil, errNoPipes
+	}
+	if c.Stderr != nil {
+		return nil, errors.New("exec: Stderr already set")
+	}
+	if c.Process != nil {
+		return nil, errors.New("exec: StderrPipe after process started")
+	}
+	h := &hostPipe{}
+	c.Stderr = h
+	return h, nil
+}
 
 // ---- the generic script behaviour ----
 
